@@ -21,6 +21,7 @@ NL == INSTANCE NumLit
 LPF == INSTANCE LPFile
 MPSF == INSTANCE MPSFile
 RES == INSTANCE Residue
+LPW == INSTANCE LPWrite
 
 Tr == ndJsonDeserialize(IOEnv.TRACE)
 VerdictFile == IOEnv.VERDICT
@@ -64,7 +65,7 @@ Init == /\ l = 1
         /\ viol = {}
         /\ cnt = [events |-> 0, dumps |-> 0, edits |-> 0, rejected |-> 0, optcerts |-> 0, farkas |-> 0, unb |-> 0,
                   solves |-> 0, solobs |-> 0, witnesses |-> 0, agree |-> 0, binv |-> 0, basisrt |-> 0, scenarios |-> 0,
-                  quiet |-> 0, conv |-> 0, basverdicts |-> 0]
+                  quiet |-> 0, conv |-> 0, basverdicts |-> 0, lptext |-> 0]
 
 \* ------------------------------------------------------------------ helpers on logged data
 Pairs1(ent) == {<<ent[k].j + 1, ent[k].v>> : k \in 1..Len(ent)}        \* logged sparse vector, 0-based -> 1-based
@@ -220,34 +221,9 @@ RoundTripBasisDefects(L, b1, b2) ==
               \/ ({b1.cstat[j], b2.cstat[j]} \subseteq {"0", "3"} /\ L.lo[j] = "-inf" /\ L.up[j] = "inf") THEN {} ELSE {"column statuses differ"})
        \cup (IF b1.rstat = b2.rstat THEN {} ELSE {"row statuses differ"})
 
-\* ------------------------------------------------------------------ file round trip (C08 / C09)
-RowTerms(L, i) == {<<L.cname[L.A[i][k].j], L.A[i][k].v>> : k \in {k \in 1..Len(L.A[i]) : L.A[i][k].v # "0"}}
-RowHalves(L, i) == LET t == RowTerms(L, i) IN
-  CASE L.sense[i] = "L" -> {[t |-> t, k |-> "le", b |-> L.rhs[i]]}
-    [] L.sense[i] = "G" -> {[t |-> t, k |-> "ge", b |-> L.rhs[i]]}
-    [] L.sense[i] = "E" -> {[t |-> t, k |-> "eq", b |-> L.rhs[i]]}
-    [] OTHER -> {[t |-> t, k |-> "ge", b |-> L.rhs[i]], [t |-> t, k |-> "le", b |-> RAdd(L.rhs[i], L.range[i])]}
-NonEmptyRows(L) == {i \in 1..L.m : RowTerms(L, i) # {}}
-Halves(L) == UNION {RowHalves(L, i) : i \in NonEmptyRows(L)}
-\* an equation and the pair of its two inequalities denote the same constraint
-NormHalves(H) == UNION {IF h.k = "eq" THEN {[t |-> h.t, k |-> "ge", b |-> h.b], [t |-> h.t, k |-> "le", b |-> h.b]} ELSE {h} : h \in H}
-ColIdx(L, nm) == CHOOSE j \in 1..L.n : L.cname[j] = nm
-RowIdx(L, nm) == CHOOSE i \in 1..L.m : L.rname[i] = nm
-RoundTripDefects(L1, L2, native) ==    \* native: ranged rows must come back as ranged rows (MPS)
-  (IF L1.max = L2.max THEN {} ELSE {"objective sense"})
-  \cup (IF SetOfSeq(L1.cname) = SetOfSeq(L2.cname) /\ L1.n = L2.n THEN
-          (IF \A j \in 1..L1.n : LET k == ColIdx(L2, L1.cname[j]) IN
-                 L2.obj[k] = L1.obj[j] /\ L2.lo[k] = L1.lo[j] /\ L2.up[k] = L1.up[j] /\ L2.isint[k] = L1.isint[j]
-           THEN {} ELSE {"a column (matched by name) differs in objective coefficient, bounds or integrality"})
-          \cup (IF NormHalves(Halves(L1)) = NormHalves(Halves(L2)) THEN {} ELSE {"row constraints differ"})
-          \cup (IF \A i \in NonEmptyRows(L1) : (L1.rname[i] # UNKNOWN /\ (L1.sense[i] # "R" \/ native)) =>
-                      /\ L1.rname[i] \in SetOfSeq(L2.rname)
-                      /\ LET k == RowIdx(L2, L1.rname[i]) IN
-                           /\ RowTerms(L2, k) = RowTerms(L1, i) /\ L2.sense[k] = L1.sense[i] /\ L2.rhs[k] = L1.rhs[i]
-                           /\ (L1.sense[i] = "R" => L2.range[k] = L1.range[i])
-                THEN {} ELSE {"a row (matched by name) differs"})
-          \cup (IF native => Cardinality(NonEmptyRows(L2)) = Cardinality(NonEmptyRows(L1)) THEN {} ELSE {"number of rows"})
-        ELSE {"column names differ"})
+\* ------------------------------------------------------------------ file round trip (C08 / C09): module RoundTrip
+RT == INSTANCE RoundTrip
+RoundTripDefects(L1, L2, native) == RT!RoundTripDefects(L1, L2, native)
 
 \* ------------------------------------------------------------------ reduced precision copies (C16)
 \* d is the exact value of the converted number: within one unit in the last place (bits = 53 for double)
@@ -617,6 +593,17 @@ Next ==
              IN /\ viol' = viol \cup (IF known /\ ev.lines # want THEN {V(ev, {"C14"}, "basis file differs from the specified rendering of the basis: wrote " \o ToString(ev.lines) \o " expected " \o ToString(want))} ELSE {})
                 /\ glob' = [glob EXCEPT !.files = {f \in @ : f.f # ev.file} \cup {[f |-> ev.file, lines |-> ev.lines]}]
                 /\ UNCHANGED <<st, slot, ans>>
+          ELSE IF ev.call = "lp_text" THEN
+             \* the tokens of the LP-format file the library wrote for the problem of handle h: LPWrite!Write is the specification of the
+             \* writer; a difference is specification drift (the property itself is decided by reading the file back: rt_check)
+             LET s0 == st[ev.h]
+                 known == s0.live /\ s0.sync /\ UNKNOWN \notin SetOfSeq(s0.lp.cname) /\ UNKNOWN \notin SetOfSeq(s0.lp.rname) /\ LPW!Writable(s0.lp)
+                 want == LPW!Tokens(LPW!Write(s0.lp, ev.objname))
+                 nd == IF known THEN {k \in 1..Len(want) : k > Len(ev.tokens) \/ ev.tokens[k] # want[k]} \cup (IF Len(ev.tokens) > Len(want) THEN {Len(want) + 1} ELSE {}) ELSE {}
+                 k0 == CHOOSE k \in nd : \A q \in nd : k <= q
+             IN /\ viol' = viol \cup (IF nd # {} THEN {V(ev, {"SPEC-DRIFT"}, "LP text differs from LPWrite!Write at token " \o ToString(k0) \o ": wrote "
+                                        \o (IF k0 <= Len(ev.tokens) THEN ev.tokens[k0] ELSE "<end>") \o " expected " \o (IF k0 <= Len(want) THEN want[k0] ELSE "<end>"))} ELSE {})
+                /\ UNCHANGED <<st, slot, ans, glob>>
           ELSE IF ev.call = "basis_rt" THEN
              LET s0 == st[ev.h]
                  d == IF s0.live /\ s0.sync /\ ~IsNone(slot[ev.b]) /\ S!BasisShapeOK(s0.lp, slot[ev.b].cstat, slot[ev.b].rstat)
@@ -624,10 +611,22 @@ Next ==
              /\ viol' = viol \cup (IF d = {} THEN {} ELSE {V(ev, {"C14"}, "basis written to a file and read back differs: " \o ToString(d))})
              /\ UNCHANGED <<st, slot, ans, glob>>
           ELSE IF ev.call = "rt_check" THEN
+             \* with a field "rename" (the objective name): the LP writer repairs names that are not valid in LP format; the problem read back is
+             \* compared with the problem under the repaired names LPWrite!FixNames predicts.  A valid name must survive (property); repaired names
+             \* that differ from the prediction are specification drift, not a violation (then only the eq_answer of the scenario decides)
              LET s1 == st[ev.h]  s2 == st[ev.h2]
-                 d == IF s1.live /\ s1.sync /\ s2.live /\ s2.sync THEN RoundTripDefects(s1.lp, s2.lp, ev.fmt = "MPS")
+                 both == s1.live /\ s1.sync /\ s2.live /\ s2.sync
+                 ren == "rename" \in DOMAIN ev /\ both /\ UNKNOWN \notin SetOfSeq(s1.lp.cname) /\ UNKNOWN \notin SetOfSeq(s1.lp.rname)
+                 L1 == IF ren THEN LPW!Renamed(s1.lp, ev.rename) ELSE s1.lp
+                 named == {i \in RT!NonEmptyRows(s1.lp) : s1.lp.sense[i] # "R"}
+                 validKept == ren => /\ \A j \in 1..s1.lp.n : LPW!ValidName(s1.lp.cname[j]) => s1.lp.cname[j] \in SetOfSeq(s2.lp.cname)
+                                     /\ \A i \in named : LPW!ValidName(s1.lp.rname[i]) => s1.lp.rname[i] \in SetOfSeq(s2.lp.rname)
+                 asSpec == ren => /\ SetOfSeq(L1.cname) = SetOfSeq(s2.lp.cname)
+                                  /\ \A i \in named : L1.rname[i] \in SetOfSeq(s2.lp.rname)
+                 d == IF both THEN (IF ~validKept THEN {"a name that is valid in LP format did not survive"} ELSE IF ~asSpec THEN {} ELSE RoundTripDefects(L1, s2.lp, ev.fmt = "MPS"))
                       ELSE IF s1.live /\ s1.sync THEN {"the written file was not read back"} ELSE {} IN
              /\ viol' = viol \cup (IF d = {} THEN {} ELSE {V(ev, SetOfSeq(ev.props), ev.fmt \o " file written and read back is a different problem: " \o ToString(d))})
+                              \cup (IF both /\ validKept /\ ~asSpec THEN {V(ev, {"SPEC-DRIFT"}, "repaired names differ from LPWrite!FixNames: " \o ToString(s2.lp.cname) \o " / " \o ToString(s2.lp.rname))} ELSE {})
              /\ UNCHANGED <<st, slot, ans, glob>>
           ELSE IF ev.call = "eq_answer" THEN
              LET r1 == IF st[ev.h].live THEN st[ev.h].lastres ELSE NoneR  r2 == IF st[ev.h2].live THEN st[ev.h2].lastres ELSE NoneR
@@ -777,6 +776,7 @@ Next ==
                              !.basverdicts = @ + (IF ev.call \in {"basis_optimalstatus", "basis_dualstatus", "verify"} THEN 1 ELSE 0),
                              !.basisrt = @ + (IF ev.call \in {"basis_rt", "basis_file", "rt_check", "expect_lp"} THEN 1 ELSE 0),
                              !.agree = @ + (IF ev.call = "eq_answer" THEN 1 ELSE 0),
+                             !.lptext = @ + (IF ev.call = "lp_text" THEN 1 ELSE 0),
                              !.solobs = @ + (IF ev.call = "sol" THEN 1 ELSE 0),
                              !.edits = @ + (IF "rval" \in DOMAIN ev /\ ev.rval = 0 /\ ev.call \in {"new_col", "add_col", "add_cols", "new_row", "add_row", "add_rows", "add_ranged_row", "add_ranged_rows",
                                                  "delete_row", "delete_rows", "delete_setrows", "delete_named_row", "delete_named_rows", "delete_col", "delete_cols", "delete_setcols",
